@@ -13,6 +13,7 @@ import (
 	"os"
 	"sort"
 	"strings"
+	"time"
 
 	"github.com/go-spatial/geom"
 	"github.com/go-spatial/geom/cmp"
@@ -69,7 +70,11 @@ func (t tableSpec) pkName() string {
 	return ""
 }
 
-// value of an attribute: K = 0 NULL, 1 integer, 2 real (R/8), 3 text (pool id T)
+// value of an attribute: K = 0 NULL, 1 integer, 2 real (R/8), 3 text (pool id T),
+// 4 date/time: the INSTANT, I = nanoseconds since the Unix epoch (UTC).  A date/time cell is a column declared
+// DATE / DATETIME / TIMESTAMP: the SQLite driver parses its text into a time.Time on the way out of the source and
+// writes a time.Time in its own layout ("2006-01-02 15:04:05.999999999-07:00"), so the unchanged tool already
+// changes the TEXT of such a cell; what must survive the copy is the instant, to the nanosecond.
 type val struct {
 	K int   `json:"k"`
 	I int64 `json:"i,omitempty"`
@@ -89,8 +94,40 @@ func (v val) goValue() interface{} {
 		return float64(v.R) / 8
 	case 3:
 		return textPool[v.T]
+	case 4: // what ReadFeatures delivers for a date/time column
+		return time.Unix(0, v.I).UTC()
 	}
 	return nil
+}
+
+// isTimeType: the declared types the SQLite driver converts to time.Time (go-sqlite3 compares the lower-cased
+// declared type with "date", "datetime", "timestamp"; the verif SpatiaLite stand-in is the same driver type)
+func isTimeType(typ string) bool {
+	switch strings.ToLower(typ) {
+	case "date", "datetime", "timestamp":
+		return true
+	}
+	return false
+}
+
+// srcValue: the value as a SOURCE GeoPackage holds it: date/times as ISO 8601 text in UTC, the GeoPackage forms
+// "2023-05-17" (DATE) and "2023-05-17T23:59:59.891Z" (DATETIME; whole seconds with or without ".000", finer than
+// milliseconds with nine digits)
+func (v val) srcValue(c colSpec) interface{} {
+	if v.K != 4 {
+		return v.goValue()
+	}
+	t := time.Unix(0, v.I).UTC()
+	switch ns := t.Nanosecond(); {
+	case strings.EqualFold(c.Type, "DATE") && ns == 0 && t.Hour() == 0 && t.Minute() == 0 && t.Second() == 0:
+		return t.Format("2006-01-02")
+	case ns%1000000 != 0:
+		return t.Format("2006-01-02T15:04:05.000000000Z")
+	case ns == 0 && t.Second()%2 == 0:
+		return t.Format("2006-01-02T15:04:05Z")
+	default:
+		return t.Format("2006-01-02T15:04:05.000Z")
+	}
 }
 
 func (v val) coq() string {
@@ -101,8 +138,83 @@ func (v val) coq() string {
 		return "VReal " + hc.CoqZ(v.R)
 	case 3:
 		return fmt.Sprintf("VText %d%%N", v.T)
+	case 4:
+		return "VTime " + hc.CoqZ(v.I)
 	}
 	return "VNull"
+}
+
+// layouts of a date/time text: ISO 8601 / the driver's, with or without zone (none = UTC, as the driver reads it)
+var timeLayouts = []string{
+	"2006-01-02T15:04:05.999999999Z07:00", "2006-01-02 15:04:05.999999999Z07:00",
+	"2006-01-02T15:04:05.999999999", "2006-01-02 15:04:05.999999999",
+	"2006-01-02T15:04Z07:00", "2006-01-02 15:04Z07:00", "2006-01-02T15:04", "2006-01-02 15:04", "2006-01-02",
+}
+
+func instantVal(t time.Time) val {
+	if y := t.Year(); y < 1700 || y > 2250 { // outside UnixNano (e.g. the zero time the driver returns for text it cannot parse)
+		return val{K: 3, T: 999997}
+	}
+	return val{K: 4, I: t.UnixNano()}
+}
+
+// valOfCol: a cell of a column with declared type typ.  Date/time columns are read RAW (selectList) and parsed
+// here: equal values = the same instant to the nanosecond, whatever the layout; text that is no date/time at all
+// is not a date/time value (the driver would silently turn it into the zero time on BOTH sides).
+func valOfCol(x interface{}, typ string) val {
+	if !isTimeType(typ) {
+		return valOf(x)
+	}
+	var s string
+	switch v := x.(type) {
+	case time.Time:
+		return instantVal(v)
+	case string:
+		s = v
+	case []byte:
+		s = string(v)
+	default:
+		return valOf(x) // NULL, or a number where a date/time text was written
+	}
+	for _, l := range timeLayouts {
+		if t, err := time.Parse(l, s); err == nil {
+			return instantVal(t)
+		}
+	}
+	return val{K: 3, T: 999996}
+}
+
+// selectList: every column by name; date/time columns as +"c" (an expression has no declared type: the driver hands
+// the stored text over as it is)
+func selectList(cols []colSpec) string {
+	l := make([]string, len(cols))
+	for i, c := range cols {
+		if isTimeType(c.Type) {
+			l[i] = fmt.Sprintf(`+"%s" AS "%s"`, c.Name, c.Name)
+		} else {
+			l[i] = fmt.Sprintf(`"%s"`, c.Name)
+		}
+	}
+	return strings.Join(l, ", ")
+}
+
+func tableInfo(db *sql.DB, table string) (cols []colSpec, dflt []bool, err error) {
+	rows, err := db.Query(fmt.Sprintf(`PRAGMA table_info('%s')`, table))
+	if err != nil {
+		return nil, nil, err
+	}
+	defer rows.Close()
+	for rows.Next() {
+		var cid, notnull, pk int
+		var name, typ string
+		var d interface{}
+		if err := rows.Scan(&cid, &name, &typ, &notnull, &d, &pk); err != nil {
+			return nil, nil, err
+		}
+		cols = append(cols, colSpec{Name: name, Type: typ, NotNull: notnull == 1, PK: pk})
+		dflt = append(dflt, d != nil)
+	}
+	return cols, dflt, rows.Err()
 }
 
 // valOf maps a value read back by database/sql to the abstract value (text not in the pool: id 999999)
@@ -110,6 +222,8 @@ func valOf(x interface{}) val {
 	switch v := x.(type) {
 	case nil:
 		return val{}
+	case time.Time:
+		return instantVal(v)
 	case int64:
 		return val{K: 1, I: v}
 	case float64:
@@ -574,24 +688,15 @@ func readFile(path string) obsFile {
 		_ = db.QueryRow(`SELECT count(*) FROM gpkg_extensions WHERE table_name=? AND column_name=? AND extension_name='gpkg_rtree_index'`, t.Name, t.GCol).Scan(&n)
 		t.Extension = n == 1
 
-		rows, err := db.Query(fmt.Sprintf(`PRAGMA table_info('%s')`, t.Name))
-		if err != nil {
+		if t.Cols, t.Dflt, err = tableInfo(db, t.Name); err != nil {
 			return fail(err)
 		}
-		for rows.Next() {
-			var cid, notnull, pk int
-			var name, typ string
-			var dflt interface{}
-			if err := rows.Scan(&cid, &name, &typ, &notnull, &dflt, &pk); err != nil {
-				rows.Close()
-				return fail(err)
-			}
-			t.Cols = append(t.Cols, colSpec{Name: name, Type: typ, NotNull: notnull == 1, PK: pk})
-			t.Dflt = append(t.Dflt, dflt != nil)
+		typeOf := map[string]string{}
+		for _, c := range t.Cols {
+			typeOf[c.Name] = c.Type
 		}
-		rows.Close()
 
-		rows, err = db.Query(fmt.Sprintf(`SELECT * FROM "%s" ORDER BY rowid`, t.Name))
+		rows, err := db.Query(fmt.Sprintf(`SELECT %s FROM "%s" ORDER BY rowid`, selectList(t.Cols), t.Name))
 		if err != nil {
 			return fail(err)
 		}
@@ -611,7 +716,7 @@ func readFile(path string) obsFile {
 				if n == t.GCol {
 					row[k] = obsCell{IsGeom: true, G: decodeGeomCell(vals[k])}
 				} else {
-					row[k] = obsCell{V: valOf(vals[k])}
+					row[k] = obsCell{V: valOfCol(vals[k], typeOf[n])}
 				}
 			}
 			t.Rows = append(t.Rows, row)
